@@ -1,2 +1,145 @@
-(* placeholder while the proofs are being written *)
-Require Import UPV.Walkers.NnfDnf.
+(* C12 — NNF and DNF conversions are equivalent and in normal form.
+   Only statements; each is closed by [exact] of a lemma from Proofs/NnfDnf_proofs.v.
+   [nnf] / [dnf] (Walkers/NnfDnf.v) model Nnf.get_nnf_expression / Dnf.get_dnf_expression of
+   unified_planning/model/walkers/dnf.py after fix 401c179; [eval sc] is the reference semantics of Core/Eval.v in
+   either quantifier mode; an ATOM is any expression that is not And/Or/Not/Implies/Iff (fluents, comparisons,
+   equalities, constants, quantifiers, ...). *)
+From Coq Require Import List ZArith NArith QArith Qcanon Bool.
+Import ListNotations.
+Require Import UPV.Core.Expr UPV.Core.Eval UPV.Walkers.NnfDnf UPV.Proofs.NnfDnf_proofs.
+
+(* ---- NNF is logically equivalent: same Boolean reading (same truth value, undefined exactly when the input is) for
+        every expression, every interpretation *)
+Theorem C12_nnf_equiv :
+  forall sc e I, as_bool (eval sc (nnf e) I) = as_bool (eval sc e I).
+Proof. exact nnf_equiv. Qed.
+Print Assumptions C12_nnf_equiv.
+
+Theorem C12_nnf_equiv_defined :
+  forall sc e I b, eval sc e I = Some (VBool b) -> eval sc (nnf e) I = Some (VBool b).
+Proof. exact nnf_equiv_defined. Qed.
+Print Assumptions C12_nnf_equiv_defined.
+
+(* ---- NNF applies negation only to atoms (and contains no Implies / Iff above the atoms) *)
+Theorem C12_nnf_is_nnf : forall e, nnf_shape (nnf e) = true.
+Proof. exact nnf_is_nnf. Qed.
+Print Assumptions C12_nnf_is_nnf.
+
+Theorem C12_nnf_is_NNF : forall e, NNF (nnf e).
+Proof. exact nnf_is_NNF. Qed.
+Print Assumptions C12_nnf_is_NNF.
+
+(* ---- DNF is logically equivalent wherever the input has a truth value (the simplifier may delete an undefined literal
+        next to a contradiction, so nothing is claimed when the input itself is undefined) *)
+Theorem C12_dnf_equiv :
+  forall sc e I b, eval sc e I = Some (VBool b) -> eval sc (dnf e) I = Some (VBool b).
+Proof. exact dnf_equiv. Qed.
+Print Assumptions C12_dnf_equiv.
+
+(* ---- DNF is a disjunction of conjunctions of literals *)
+Theorem C12_dnf_is_dnf : forall e, dnf_shape (dnf e) = true.
+Proof. exact dnf_is_dnf. Qed.
+Print Assumptions C12_dnf_is_dnf.
+
+Theorem C12_dnf_is_DNF : forall e, DNF (dnf e).
+Proof. exact dnf_is_DNF. Qed.
+Print Assumptions C12_dnf_is_DNF.
+
+(* ---- tautological / contradictory sub-conjunctions never change the truth value: a conjunction of literals that the
+        simplifier turns into the constant k has the value k, and replacing it by k inside any conjunction or
+        disjunction changes neither the value of the expression nor the value of its DNF *)
+Theorem C12_constant_conjunct_value :
+  forall sc I c k,
+    simp_conj simp_atom c = EBool k ->
+    (forall x, In x c -> exists b, eval sc x I = Some (VBool b)) ->
+    eval sc (mkAnd c) I = Some (VBool k).
+Proof. exact constant_conjunct_value. Qed.
+Print Assumptions C12_constant_conjunct_value.
+
+Theorem C12_dnf_constant_conjunct_and :
+  forall sc I pre c post k b,
+    simp_conj simp_atom c = EBool k ->
+    eval sc (EAnd (pre ++ mkAnd c :: post)) I = Some (VBool b) ->
+    eval sc (dnf (EAnd (pre ++ mkAnd c :: post))) I = Some (VBool b)
+    /\ eval sc (EAnd (pre ++ EBool k :: post)) I = Some (VBool b)
+    /\ eval sc (dnf (EAnd (pre ++ EBool k :: post))) I = Some (VBool b).
+Proof. exact dnf_constant_conjunct_and. Qed.
+Print Assumptions C12_dnf_constant_conjunct_and.
+
+Theorem C12_dnf_constant_conjunct_or :
+  forall sc I pre c post k b,
+    simp_conj simp_atom c = EBool k ->
+    eval sc (EOr (pre ++ mkAnd c :: post)) I = Some (VBool b) ->
+    eval sc (dnf (EOr (pre ++ mkAnd c :: post))) I = Some (VBool b)
+    /\ eval sc (EOr (pre ++ EBool k :: post)) I = Some (VBool b)
+    /\ eval sc (dnf (EOr (pre ++ EBool k :: post))) I = Some (VBool b).
+Proof. exact dnf_constant_conjunct_or. Qed.
+Print Assumptions C12_dnf_constant_conjunct_or.
+
+(* ---- the same two DNF theorems for ANY behaviour of the simplifier inside atoms that preserves Boolean values /
+        maps atoms to atoms (the walk_and / walk_not part of the simplifier and the Dnf walker are the modelled code) *)
+Theorem C12_dnf_equiv_any_atom_simplifier :
+  forall satom : expr -> expr,
+    (forall sc I a b, eval sc a I = Some (VBool b) -> eval sc (satom a) I = Some (VBool b)) ->
+    forall sc e I b, eval sc e I = Some (VBool b) -> eval sc (dnf_gen satom e) I = Some (VBool b).
+Proof. exact dnf_gen_equiv. Qed.
+Print Assumptions C12_dnf_equiv_any_atom_simplifier.
+
+Theorem C12_dnf_is_dnf_any_atom_simplifier :
+  forall satom : expr -> expr,
+    (forall a, atomic a = true -> atomic (satom a) = true) ->
+    forall e, dnf_shape (dnf_gen satom e) = true.
+Proof. exact dnf_gen_is_dnf. Qed.
+Print Assumptions C12_dnf_is_dnf_any_atom_simplifier.
+
+(* ---- non-vacuity *)
+Definition I0 : interp :=
+  {| fl := fun f _ => if (f =? 0)%N then Some (VBool true) else if (f =? 1)%N then Some (VBool false) else None;
+     par := fun _ => None; var := fun _ => None; ifun := fun _ _ => None; objs := fun _ => [] |}.
+Definition fa := EFluent 0%N [].
+Definition fb := EFluent 1%N [].
+Definition le12 := ELe (EInt 1) (EInt 2).
+Definition le23 := ELe (EInt 2) (EInt 3).
+Definition lt32 := ELt (EInt 3) (EInt 2).
+
+(* not (a => (b and 1<=2)) has a value, its NNF is a and (not b or not 1<=2) *)
+Example C12_nnf_equiv_defined_nonvacuous :
+  eval false (ENot (EImplies fa (EAnd [fb; le12]))) I0 = Some (VBool true)
+  /\ nnf (ENot (EImplies fa (EAnd [fb; le12]))) = EAnd [fa; EOr [ENot fb; ENot le12]].
+Proof. split; vm_compute; reflexivity. Qed.
+
+(* the former defect: (1<=2 and 2<=3) is true and its DNF is now true; a or (1<=2 and 2<=3) keeps the disjunct *)
+Example C12_dnf_equiv_nonvacuous :
+  eval false (EAnd [le12; le23]) I0 = Some (VBool true) /\ dnf (EAnd [le12; le23]) = EBool true
+  /\ eval false (EOr [fb; EAnd [le12; le23]]) I0 = Some (VBool true) /\ dnf (EOr [fb; EAnd [le12; le23]]) = EOr [fb; EBool true].
+Proof. repeat split; vm_compute; reflexivity. Qed.
+
+Example C12_constant_conjunct_value_nonvacuous :
+  simp_conj simp_atom [le12; le23] = EBool true /\ simp_conj simp_atom [fa; lt32] = EBool false
+  /\ simp_conj simp_atom [fa; ENot fa] = EBool false
+  /\ (forall x, In x [fa; lt32] -> exists b, eval false x I0 = Some (VBool b)).
+Proof.
+  repeat split; try (vm_compute; reflexivity).
+  intros x [<-|[<-|[]]]; [exists true | exists false]; vm_compute; reflexivity.
+Qed.
+
+Example C12_dnf_constant_conjunct_and_nonvacuous :
+  simp_conj simp_atom [le12; le23] = EBool true
+  /\ eval false (EAnd ([fa] ++ mkAnd [le12; le23] :: [ENot fb])) I0 = Some (VBool true).
+Proof. split; vm_compute; reflexivity. Qed.
+
+Example C12_dnf_constant_conjunct_or_nonvacuous :
+  simp_conj simp_atom [fa; lt32] = EBool false
+  /\ eval false (EOr ([fb] ++ mkAnd [fa; lt32] :: [])) I0 = Some (VBool false).
+Proof. split; vm_compute; reflexivity. Qed.
+
+(* the hypotheses of the generic theorems are satisfiable: the constant-folding instance and the identity *)
+Example C12_any_atom_simplifier_nonvacuous :
+  (forall sc I a b, eval sc a I = Some (VBool b) -> eval sc (simp_atom a) I = Some (VBool b))
+  /\ (forall a, atomic a = true -> atomic (simp_atom a) = true)
+  /\ (forall sc I a b, eval sc a I = Some (VBool b) -> eval sc ((fun x : expr => x) a) I = Some (VBool b))
+  /\ (forall a, atomic a = true -> atomic ((fun x : expr => x) a) = true).
+Proof.
+  split; [|split; [exact simp_atom_atomic | split; trivial]].
+  intros sc I a b. rewrite <- !bv_Some. apply simp_atom_sound.
+Qed.
